@@ -25,6 +25,7 @@ BUF = ('IFF', 'LIFF', 'RIFF')
 SIGNIFICANT = {'NOT': 0, 'LNOT': 0, 'RNOT': 1, 'IFF': 0, 'LIFF': 0, 'RIFF': 1}   # from OP: which operand is read
 PSEUDO = ('LNOT', 'RNOT', 'LIFF', 'RIFF')
 ASYM = ('GT', 'LT', 'GEQ', 'LEQ')
+PARITY = ('XOR', 'NXOR')
 
 BASE = ('RRG', 'RRG!', 'MUO', 'MDG', 'MEG')
 
@@ -191,7 +192,7 @@ def random_net(r, max_inputs=4, max_gates=8, families=None):
     storage order, sometimes a block.  `families` biases the type alphabet (mixed-family chains)."""
     n = r.randint(0, max_inputs)
     k = r.randint(0, max_gates)
-    fam = families if families is not None else r.choice(['all', 'all', 'unary-heavy', 'neg-only', 'buf-only', 'dup-heavy'])
+    fam = families if families is not None else r.choice(['all', 'all', 'unary-heavy', 'neg-only', 'buf-only', 'dup-heavy', 'parity-dup'])
     if fam == 'all':
         alpha = list(S.NARY) + list(S.BINARY) + list(S.UNARY) + list(S.CONST)
     elif fam == 'unary-heavy':
@@ -200,35 +201,57 @@ def random_net(r, max_inputs=4, max_gates=8, families=None):
         alpha = ['NOT', 'LNOT', 'RNOT'] * 2 + ['AND', 'OR', 'NXOR', 'LEQ', 'ALWAYS_TRUE']
     elif fam == 'buf-only':
         alpha = ['IFF', 'LIFF', 'RIFF'] * 2 + ['NAND', 'XOR', 'OR', 'LT', 'ALWAYS_FALSE']
+    elif fam == 'parity-dup':
+        # parity gates with repeated operands next to same-type gates over the de-duplicated operand set
+        alpha = ['XOR', 'XOR', 'XOR', 'NXOR', 'NXOR', 'AND', 'AND', 'OR', 'NOR', 'NOT', 'GT']
     else:
         alpha = ['AND', 'AND', 'OR', 'XOR', 'GEQ', 'GT', 'NOT', 'ALWAYS_TRUE']
     ins = [f'x{i}' for i in range(n)]
     gates = [(x, ('INPUT', ())) for x in ins]
     nodes = list(ins)
+    pending = None
     for i in range(k):
         cand = [t for t in alpha if nodes or t in S.CONST]
         if not cand:
             break
+        lab = f'g{i}'
+        if pending is not None:
+            # companion of the previous gate: same type over the operand SET (multiplicity dropped), order varied
+            t, ops = pending
+            pending = None
+            gates.append((lab, (t, ops)))
+            nodes.append(lab)
+            continue
         t = r.choice(cand)
         if t in S.NARY:
-            a = r.choice((2, 2, 3, 4))
+            a = r.choice((2, 3, 3, 4) if fam == 'parity-dup' else (2, 2, 3, 4))
         elif t in S.BINARY:
             a = 2
         elif t in S.UNARY:
             a = 1
         else:
             a = 2 if (nodes and r.random() < 0.15) else 0
-        if fam == 'dup-heavy' and nodes:
+        if fam in ('dup-heavy', 'parity-dup') and nodes:
             pool = nodes[: max(2, len(nodes) // 2)]
         else:
             pool = nodes
         if a >= 2 and r.random() < 0.2:
             ops = tuple([r.choice(pool)] * a)
+        elif a >= 3 and t in S.NARY and r.random() < (0.6 if fam == 'parity-dup' else 0.25):
+            # some but not all operands repeated: T(x, x, y), T(x, y, x), T(x, y, y, x) ...
+            lst = [r.choice(pool) for _ in range(a - 1)]
+            lst.append(r.choice(lst))
+            r.shuffle(lst)
+            ops = tuple(lst)
         else:
             ops = tuple(r.choice(pool) for _ in range(a))
-        lab = f'g{i}'
         gates.append((lab, (t, ops)))
         nodes.append(lab)
+        if t in S.NARY and len(set(ops)) < len(ops) and len(set(ops)) >= 2 and r.random() < (0.6 if fam == 'parity-dup' else 0.15):
+            ded = list(dict.fromkeys(ops))
+            if r.random() < 0.5:
+                ded.reverse()
+            pending = (t, tuple(ded))
     if not nodes:
         outs = []
     else:
@@ -244,6 +267,68 @@ def random_net(r, max_inputs=4, max_gates=8, families=None):
     if gl and r.random() < 0.1:
         blocks = {'blk': {'inputs': ins[:1], 'gates': gl[: 1 + len(gl) // 2], 'outputs': gl[:1]}}
     return N.Net(ins, outs, dict(gates), blocks=blocks)
+
+
+def _fam_net(ins, gl, outs, reverse_storage=False):
+    items = [(x, ('INPUT', ())) for x in ins] + list(gl)
+    if reverse_storage:
+        items.reverse()                      # users stored before their operands, inputs last
+    return N.Net(ins, outs, dict(items))
+
+
+def repeated_operand_family(full=False):
+    """Targeted family 'n-ary gates with REPEATED operands next to same-type gates over the de-duplicated operand set'.
+    Multiplicity of an operand is irrelevant for AND/OR/NAND/NOR but not for the parity types: XOR(x,x,y) = y differs
+    from XOR(x,y), so a pass that identifies gates by their operand *set* is wrong exactly here.  For every n-ary type T:
+      literal        T(x,x,y), T(x,y), T(x,y,y), T(y,x), T(x,y,x) side by side, over 2 and 3 inputs; output lists: all five
+                     (both orders), every ternary/binary pair in both orders, a single one (the others dead: a dead gate may
+                     be visited first), and consumers GT/AND of them; storage order as written and reversed;
+      wide           additionally T(x,y,x,y), T(x,x,x,y), T(x,x), T(x,x,x), T(y,x,x);
+      after merging  two duplicate gates G1, G2 (AND(a,b)/AND(b,a), OR(a,b) twice, NOT(a) twice, XOR(a,a,b)/XOR(b,a,a))
+                     feeding T(G1,G2,c), next to T(G1,c), T(c,G2), T(G2,c,G1), T(G1,G2): the repetition only appears once
+                     G2 has been renamed to G1.
+    Returns [(net, primary)]: primary members get every pipeline of the tier, the others (reversed storage, further
+    duplicate kinds) the core passes and cleanup only.  `full` (thorough tier): one more input placement, reversed
+    storage for every member, everything primary."""
+    out = []
+    placements = [(2, 'x0', 'x1'), (3, 'x0', 'x2')] + ([(3, 'x2', 'x1')] if full else [])
+    for T in S.NARY:
+        for n, x, y in placements:
+            ins = [f'x{i}' for i in range(n)]
+            gl = [('g0', (T, (x, x, y))), ('g1', (T, (x, y))), ('g2', (T, (x, y, y))), ('g3', (T, (y, x))), ('g4', (T, (x, y, x)))]
+            five = [g for g, _ in gl]
+            outsets = [five, five[::-1], ['g0', 'g1'], ['g1', 'g0'], ['g2', 'g3'], ['g3', 'g2'], ['g1', 'g4'], ['g4', 'g1'], ['g1'], ['g0']]
+            cons = gl + [('k0', ('GT', ('g0', 'g1'))), ('k1', ('AND', ('g2', 'g3', 'g4')))]
+            for rev in (False, True):
+                for outs in outsets:
+                    out.append((_fam_net(ins, gl, outs, rev), full or not rev))
+                out.append((_fam_net(ins, cons, ['k0', 'k1'], rev), full or not rev))
+        # wide
+        ins, x, y = ['x0', 'x1'], 'x0', 'x1'
+        gl = [('g0', (T, (x, y, x, y))), ('g1', (T, (x, y))), ('g2', (T, (x, x, x, y))), ('g3', (T, (x, x))), ('g4', (T, (x, x, x))),
+              ('g5', (T, (y, x, x)))]
+        six = [g for g, _ in gl]
+        for j, outs in enumerate((six, ['g4', 'g3'], ['g0', 'g1'], ['g1', 'g0'], six[::-1], ['g3', 'g4'], ['g2', 'g1', 'g5'])):
+            for rev in ((False, True) if full else (False,)):
+                out.append((_fam_net(ins, gl, outs, rev), full or j < 4))
+        # after merging
+        for n in (2, 3):
+            ins = [f'x{i}' for i in range(n)]
+            a, b, c = 'x0', 'x1', ins[-1] if n == 3 else 'x0'
+            for dk, (d1, d2) in enumerate(((('AND', (a, b)), ('AND', (b, a))), (('OR', (a, b)), ('OR', (a, b))), (('NOT', (a,)), ('NOT', (a,))),
+                                           (('XOR', (a, a, b)), ('XOR', (b, a, a))))):
+                if dk == 3 and not (full or n == 3):
+                    continue
+                gl = [('G1', d1), ('G2', d2), ('k1', (T, ('G1', 'G2', c))), ('k2', (T, ('G1', c))), ('k3', (T, (c, 'G2'))),
+                      ('k4', (T, ('G2', c, 'G1'))), ('k5', (T, ('G1', 'G2')))]
+                ks = ['k1', 'k2', 'k3', 'k4', 'k5']
+                outsets = [ks, ['k1', 'k2'], ['k2', 'k1']] + ([['k3', 'k1'], ks[::-1], ['k4', 'k3'], ['k1'], ['k2']] if (full or dk == 0) else [])
+                for j, outs in enumerate(outsets):
+                    for rev in ((False, True) if full else (False,)):
+                        out.append((_fam_net(ins, gl, outs, rev), full or (dk == 0 and j < 4)))
+                if full or dk == 0:
+                    out.append((_fam_net(ins, gl + [('m0', ('LT', ('k1', 'k2'))), ('m1', ('OR', ('k3', 'k4', 'k5')))], ['m0', 'm1']), True))
+    return out
 
 
 # ------------------------------------------------------------------ snapshots / predicates ----------
@@ -293,6 +378,19 @@ def tt_modulo_inputs(arg, res, ta=None):
     return None
 
 
+def _has_equal_operands(net, ops):
+    """Two operands are the same node, or are (non-input) gates of equal type over the same operand multiset
+    (operand order respected for the asymmetric types): a repetition that exists literally or arises after merging."""
+    if len(set(ops)) < len(ops):
+        return True
+    sigs = []
+    for o in dict.fromkeys(ops):
+        t, oo = net.gates.get(o, ('INPUT', ()))
+        if t != 'INPUT':
+            sigs.append((t, tuple(sorted(oo)) if S.SYMMETRIC[t] else tuple(oo)))
+    return len(set(sigs)) < len(sigs)
+
+
 def features(net):
     """Stable tokens describing which syntactic classes a netlist contains (used for witness classes)."""
     f = set()
@@ -314,6 +412,8 @@ def features(net):
         f.add('nary>2')
     if any(len(set(o)) < len(o) for _, o in net.gates.values()):
         f.add('repeated-operand')
+    if any(t in PARITY and len(o) >= 3 and _has_equal_operands(net, o) for t, o in net.gates.values()):
+        f.add('repeated-operands-parity')
     if any(t in S.CONST and o for t, o in net.gates.values()):
         f.add('const-with-operands')
     elif any(t in S.CONST for t in types):
@@ -473,8 +573,10 @@ def work_list(quick, prop):
             chunks.append(('enum', n_in, k, 'FULL', 'core+more', 0, 1))
         chunks.append(('enum', 1, 2, 'REDUCED', 'core', 0, 1))
         chunks.append(('enum', 2, 2, 'REDUCED-2v', 'core', 0, 1))
+        chunks.append(('family', 'repeated-operands', 'core+more', False))
         chunks.append(('rand', 0, 1200, 4, 8, 'all'))
     else:
+        chunks.append(('family', 'repeated-operands', 'all', True))
         for n_in, k in ((0, 1), (0, 2), (1, 0), (1, 1), (2, 0), (2, 1)):
             chunks.append(('enum', n_in, k, 'FULL', 'all', 0, 1))
         parts = 32
@@ -508,6 +610,11 @@ def chunk_items(chunk, prop):
             if i % parts != part:
                 continue
             yield net, pipes
+    elif chunk[0] == 'family':
+        _, _fam, pset, full = chunk
+        pipes = {'core': core, 'core+more': core + more, 'all': core + more + tho}[pset]
+        for net, primary in repeated_operand_family(full):
+            yield net, (pipes if primary else core)
     else:
         _, start, count, max_in, max_g, pset = chunk
         for i in range(start, start + count):
